@@ -657,17 +657,39 @@ func walk(adb account.AccountDatabase, root common.Hash) (got map[common.Address
 	return got, nil
 }
 
-// coldCheck opens root on disk with a brand-new AccountDatabase and compares with snap.
-func coldCheck(disk map[string][]byte, root common.Hash, snap *model) *finding {
-	ro := &roDB{m: disk}
-	adb := account.NewDatabase(ro)
-	defer account.VerifC03ReleaseCaches(adb)
+// coldDB is the brand-new AccountDatabase (empty caches) a restarted process opens over one disk
+// image.  One instance serves all roots examined at one prefix: its only read caches (code, code
+// size) are filled from this very image, so they cannot make anything readable that the image lacks.
+type coldDB struct {
+	disk     map[string][]byte
+	adb      account.AccountDatabase
+	usedCode bool
+}
+
+func openCold(disk map[string][]byte) *coldDB {
+	return &coldDB{disk: disk, adb: account.NewDatabase(&roDB{m: disk})}
+}
+
+func (cd *coldDB) close() {
+	if cd.usedCode { // only then the code cache holds off-heap chunks
+		account.VerifC03ReleaseCaches(cd.adb)
+	}
+}
+
+// coldCheck opens root on the cold database and compares with snap.
+func coldCheck(cd *coldDB, root common.Hash, snap *model) *finding {
 	var f *finding
 	p, v, site := fw.Try(func() {
 		var got map[common.Address]*mAcct
-		got, f = walk(adb, root)
+		got, f = walk(cd.adb, root)
 		if f != nil {
+			cd.usedCode = true
 			return
+		}
+		for _, w := range got {
+			if len(w.Code) > 0 {
+				cd.usedCode = true
+			}
 		}
 		for i, ad := range accts {
 			ma, w := &snap.A[i], got[ad]
@@ -693,10 +715,8 @@ func coldCheck(disk map[string][]byte, root common.Hash, snap *model) *finding {
 				}
 			}
 		}
-		// the same through the public API on a second brand-new database
-		adb2 := account.NewDatabase(&roDB{m: disk})
-		defer account.VerifC03ReleaseCaches(adb2)
-		st, err := account.NewAccountDB(root, adb2)
+		// the same through the public getters of a state object opened at root
+		st, err := account.NewAccountDB(root, cd.adb)
 		if err != nil {
 			f = &finding{"root-unopenable", err.Error()}
 			return
@@ -706,6 +726,7 @@ func coldCheck(disk map[string][]byte, root common.Hash, snap *model) *finding {
 		}
 	})
 	if p {
+		cd.usedCode = true
 		return &finding{"panic:" + site, fmt.Sprint(v)}
 	}
 	return f
@@ -814,13 +835,14 @@ func checkPrefixes(h History, scale, mapVar int, s *stats) (vs []viol, tr *trace
 		if interior {
 			s.nontrivial++
 		}
+		cd := openCold(disk)
 		for bi, root := range tr.roots {
 			acked := tr.ack[bi] <= p
 			if !acked && !topOnDisk(disk, root) {
 				s.out("unacked-root-absent")
 				continue
 			}
-			f := coldCheck(disk, root, tr.snaps[bi])
+			f := coldCheck(cd, root, tr.snaps[bi])
 			c := base
 			c.P, c.Root = p, bi
 			switch {
@@ -850,6 +872,7 @@ func checkPrefixes(h History, scale, mapVar int, s *stats) (vs []viol, tr *trace
 						h.name(), scale, p, len(log), root[:6], bi, f.kind, f.detail), c})
 			}
 		}
+		cd.close()
 	}
 	return vs, tr
 }
@@ -877,9 +900,9 @@ func checkFaults(h History, scale, mapVar, nwrites int, s *stats, expired func()
 			// the commit never reported success: the property promises nothing about that root
 			s.out("fault:commit-gave-up")
 		}
-		disk := tr.rec.m
+		cd := openCold(tr.rec.m)
 		for bi, root := range tr.roots {
-			f := coldCheck(disk, root, tr.snaps[bi])
+			f := coldCheck(cd, root, tr.snaps[bi])
 			if f == nil {
 				if tr.retried[bi] {
 					s.out("fault:recommitted-root-ok")
@@ -902,6 +925,7 @@ func checkFaults(h History, scale, mapVar, nwrites int, s *stats, expired func()
 					h.name(), scale, p, root[:6], bi, f.kind, f.detail),
 				Case{History: h, Scale: scale, MapVar: mapVar, Mode: "fault", P: p, Root: bi}})
 		}
+		cd.close()
 	}
 	return vs, true
 }
